@@ -764,6 +764,11 @@ class Gen:
 
     def render_reduction(self, k, kind, args):
         a = args[0]
+        if kind in ("max", "min", "norm_inf", "mmax", "mmin") and \
+                any(o in a.ops for o in ("diagm", "unit", "sparse")) and self.r is not None:
+            # F19 (known, no patch): max/min folds over sparse-iterated expressions ignore the implicit zeros;
+            # kept in the corpus, not generated
+            kind = "sum" if a.kind == "V" else "msum"
         if kind == "inner_prod":
             b = args[1]
             n = a.shape
